@@ -10,7 +10,7 @@ CONSTANTS
   MaxCmds = 8
   MaxSteps = 16
   Kinds = {"b0", "b1", "fin"}
-  Ops = {"n", "s", "d", "x"}
+  Ops = {"n", "s", "d", "x", "q"}
   MaxBatch = 2
   AllowDup = TRUE
   AllowOrphan = TRUE
